@@ -164,8 +164,8 @@ def gen_dotted_sibling_case(rng, root):
     return ch, desc
 
 
-def gen_case(rng, root):
-    r_ = rng.random()
+def gen_case(rng, root, defect="draw"):
+    r_ = rng.random() if defect == "draw" else 1.0
     if r_ < 0.1:
         return gen_dotted_sibling_case(rng, root)
     if r_ < 0.37:
@@ -177,7 +177,8 @@ def gen_case(rng, root):
         subs = [(c, p) for c, p in scen.walk(ch) if p]
         if subs:
             break
-    defect = rng.choice(DEFECTS)
+    if defect == "draw":
+        defect = rng.choice(DEFECTS)
     desc = {"depth": max(len(p) for _c, p in subs) if subs else 0, "n_sublayouts": len(subs), "defect": defect}
     if defect and subs:
         sub, path = rng.choice(subs)
@@ -228,10 +229,10 @@ def gen_case(rng, root):
     return ch, desc
 
 
-def one_case(rng, res):
+def one_case(rng, res, defect="draw"):
     root = scen.new_root()
     try:
-        ch, desc = gen_case(rng, root)
+        ch, desc = gen_case(rng, root, defect)
         scn = scen.build(ch, root, rng)
         scn.params = vcommon.pick_params(rng, desc)
         vcommon.pick_tz(rng, scn, desc)
@@ -255,8 +256,11 @@ def one_case(rng, res):
 def shard(seed, idx, n, tier):
     res = core.Result()
     rng = core.rng_for(seed, "c06", idx)
-    for _ in range(n):
-        one_case(rng, res)
+    # every kind of defect occurs in every run (cycled through, not drawn)
+    kinds = [d_ for d_ in dict.fromkeys(DEFECTS) if d_]
+    for j in range(n):
+        c_ = idx * n + j
+        one_case(rng, res, defect=kinds[(c_ // 3) % len(kinds)] if c_ % 3 == 0 else "draw")
     return res
 
 
